@@ -91,7 +91,7 @@ CHECKS = {
     "C07": dict(
         technique="drain-loop structure rule + gate ordering/guard classification + select-arm provenance (MIR)",
         text="Decides U1 (same cloned response to every popped listener; loop ends only on None; only push/pop mutate the list), U2 (one answer per lifecycle, one "
-             "lifecycle per entry), U3 (all three rejections precede add, have the stated guards/responses; fail flag disables readiness), U4 (fail arm forwards, no pay), Q (request fields verbatim), U5 (no failure is answered to one HTLC directly - by the classification or before the table entry is taken - depending on that HTLC's own amount/expiry/declared total).",
+             "lifecycle per entry), U3 (all three rejections precede add, have the stated guards/responses; fail flag disables readiness), U4 (fail arm forwards, no pay), Q (request fields verbatim), U5 (no failure is answered to one HTLC directly - by the classification or before the table entry is taken - depending on that HTLC's own amount/expiry/declared total), B (nothing blocks while the table lock is held - the ready / fail signals are latched single-shot sends -, so the drain can always run: C14-L1 cited).",
         note="Not decided: which of two simultaneously ready select arms tokio picks.", design="5/C07"),
     "C10": dict(
         technique="edge-guard rules + per-definition arm classification of the amount + iterator/selector shape of the route-hint gate (MIR)",
@@ -107,7 +107,7 @@ CHECKS = {
     "C14": dict(
         technique="lock-scope analysis (guard live regions vs. Yield/poll sites) + latch rule + ADT field table (MIR)",
         text="Decides L1 (for every payments-table guard: only add-listener/fail-requester awaited, which await only latched sends; no second lock/RPC), L2 (no shared "
-             "lock/channel/connection in Rpc/ClnDatastore/PayPaymentProvider; no Semaphore/Barrier field or acquisition anywhere in the crate; per-call connections; other guards never across await), K (per-hash keys; no globals), G (an HTLC joins the entry of its own hash: hash gate before the lookup), T (own task per entry), S (a hash reads back the record under its own state key: C08-W4 cited), D (every hook call runs in its own spawned task that the reader never awaits: C17-R2 cited).",
+             "lock/channel/connection in Rpc/ClnDatastore/PayPaymentProvider; no Semaphore/Barrier field or acquisition anywhere in the crate; per-call connections; other guards never across await), K (per-hash keys; no globals), G (an HTLC joins the entry of its own hash: hash gate before the lookup), T (own task per entry), S (a hash reads back the record under its own state key: C08-W4 cited), D (every hook call runs in its own spawned task that the reader never awaits: C17-R2 cited), A (the payments table is acquired by awaiting lock(), never by try_lock).",
         note="Not decided: fairness of tokio and of the node's RPC socket.", design="5/C14"),
     "C15": dict(
         technique="dominance/ordering of awaited RPCs + switch-table extraction of tolerated error codes + loop-shape rule (MIR)",
@@ -134,7 +134,7 @@ CHECKS = {
     "C20": dict(
         technique="who-writes rule through the height guard + dominating comparison + loop-exit reachability on the poll loop (MIR)",
         text="Decides W (single monotone write under one guard region without await), S (sources: getinfo.blockheight and block_added.height reach the cell only via the update fn; provider "
-             "returns the cell), C (one cell: created once, the field holding it never re-assigned), F (every get_info of the ClnRpc implementation asks the node: no cached reply), H2 (notification handlers run in spawned tasks, not inside the raced reader future), P (panic discipline over block_watcher.rs and the logging layer the poll task logs through), L (loop exits only via shutdown; poll results continue; constant positive interval; spawned after a successful initial poll), H (subscription wiring).",
+             "returns the cell), C (one cell: created once, the field holding it never re-assigned), F (every get_info of the ClnRpc implementation asks the node: no cached reply), H2 (notification handlers run in spawned tasks, not inside the raced reader future), P (panic discipline over block_watcher.rs and the logging layer the poll task logs through), L (loop exits only via shutdown; poll results continue; constant positive interval of at most the 60 s the property's anchor names; spawned after a successful initial poll), H (subscription wiring).",
         note="Not decided: the wall-clock bound 'within one interval'.", design="5/C20"),
 }
 
